@@ -60,12 +60,17 @@ func icptAlphabet() []op {
 	}
 }
 
-// icptFamily: all sequences up to maxLen over icptAlphabet from every icptConfigs state, then random longer ones.
-func (rn *runner) icptFamily(tie *lib.Tie, r *rand.Rand, maxLen, random int) {
+// icptFamily: all sequences up to maxLen over icptAlphabet from the new model, up to maxLenConfigured from the
+// configured one, then random longer ones.
+func (rn *runner) icptFamily(tie *lib.Tie, r *rand.Rand, maxLen, maxLenConfigured, random int) {
 	al := icptAlphabet()
-	for _, cfg := range icptConfigs() {
+	for ci, cfg := range icptConfigs() {
 		rn.doConfig(cfg, tie)
-		for n := 1; n <= maxLen; n++ {
+		bound := maxLen
+		if ci > 0 {
+			bound = maxLenConfigured
+		}
+		for n := 1; n <= bound; n++ {
 			var rec func(prefix []op)
 			rec = func(prefix []op) {
 				if len(prefix) == n {
